@@ -843,7 +843,7 @@ def families(tier, seed):
     q = tier == "quick"
     F = []
     for n in ([3, 4] if q else [4, 5, 6]):
-        F.append(Family("link/N%d" % n, make_link, "all link destinations of %d chars over '#:/.ahipnv' x all_links_external" % n, args=dict(n=n, alphabet="#:/.ahipnv"), nontrivial="attr", max_forks=200000,
+        F.append(Family("link/N%d" % n, make_link, "all link destinations of %d chars over '#:/.ahipnv&\\'' x all_links_external" % n, args=dict(n=n, alphabet="#:/.ahipnv&'"), nontrivial="attr", max_forks=200000,
                         required=(n <= (4 if q else 5))))
     F.append(Family("link-sphinx/N3", make_link_sphinx, "Sphinx renderer: all link destinations of 3 chars over '#a./' (non-URL): the pending_xref carries the destination unchanged, '#' links stay local", args=dict(n=3, alphabet="#a./"),
                     nontrivial="attr", max_forks=100000))
